@@ -1,6 +1,7 @@
 import GoMailModel.Mime.Body
 import GoMailModel.Mime.Fold
 import GoMailModel.Proofs.Wrap
+import GoMailModel.Proofs.Fold
 import GoMailModel.Generated.Const
 /-
   C18 — Generated output obeys Internet-message line discipline.
@@ -45,6 +46,18 @@ theorem b64_body_lines (content : Bytes) :
 /-- The encoded body does not depend on how the content producer chunks its writes. -/
 theorem body_chunk_independent (e : Body.CTE) (chunks : List Bytes) :
     Body.encodeChunks e chunks = Body.encodeBody e chunks.flatten := rfl
+
+/-- Header folding (writeHeader): for a blank-free key and CR/LF-free values the emitted field is a
+    list of CRLF-joined lines such that (1) every continuation line starts with a blank, (2) deleting
+    the CRLFs — unfolding — gives back exactly "key: v1, v2, ...", and (3) every line has at most 76
+    bytes or consists of a single token without blanks. Holds for all word lengths and blank patterns. -/
+theorem header_fold (key : Bytes) (values : List Bytes) (hk : Fold.NoSp key)
+    (hv : Fold.NoCRLF (Fold.joinValues values)) :
+    ∃ lines : List Bytes, lines ≠ [] ∧ Fold.bufferString key values = joinCRLF lines ∧
+      lines.flatten = key ++ [58, 32] ++ Fold.joinValues values ∧
+      (∀ l ∈ lines.tail, l.head? = some 32) ∧
+      (∀ l ∈ lines, l.length ≤ 76 ∨ ∀ b ∈ l.drop 1, b ≠ 32) :=
+  Fold.bufferString_structure key values hk hv
 
 /-- non-vacuity: a 100-byte content really produces two lines -/
 example : wrap76 (List.replicate 80 65) = List.replicate 76 65 ++ crlf ++ (List.replicate 4 65 ++ crlf) := by
